@@ -1060,6 +1060,9 @@ func racePhase(seed int64, budget time.Duration, workers int, outDir string) (re
 						reps = append(reps, r)
 					}
 				}
+				if code == 3 && len(rs) > 0 {
+					code = 0 // the run reported its own violation line (watchdog)
+				}
 				if code != 0 && len(rs) == 0 && trouble == "" {
 					if site, ok := panicSite(out); ok && !lifetimePanic(out) {
 						k := raceFocus + ".race-mode-panic@" + site
